@@ -11,6 +11,7 @@ mod scen_6lo;
 mod scen_dgram;
 mod scen_dns;
 mod scen_inject;
+mod scen_neigh;
 mod scen_peer;
 mod scen_tcp;
 mod tap;
@@ -69,6 +70,10 @@ fn dns_scn(t: &mut Tape, p: Props, thorough: bool, trace: bool) -> Outcome {
 
 fn sixlo_scn(t: &mut Tape, p: Props, thorough: bool, trace: bool) -> Outcome {
     scen_6lo::run(t, p, thorough, trace)
+}
+
+fn neigh_scn(t: &mut Tape, p: Props, thorough: bool, trace: bool) -> Outcome {
+    scen_neigh::run(t, p, thorough, trace)
 }
 
 fn dhcp_scn(t: &mut Tape, p: Props, thorough: bool, trace: bool) -> Outcome {
@@ -197,9 +202,12 @@ fn defs() -> &'static [CheckDef] {
             CheckDef {
                 id: "C16",
                 props: Props::of(&["C16"]),
-                scens: vec![Scen { name: "dgram-pair-exact", weight: 1, run: dgram_exact }, Scen { name: "dgram-pair-sloppy", weight: 1, run: dgram_sloppy }],
-                rule: "tap oracle on every frame of Ethernet runs: unicast IP frames only to the hardware address validly learned for the next hop within the last 60 s; ARP requests / neighbour solicitations >= 1 s apart; non-trivial = fault fired AND >= 3 datagrams delivered; distinct = event-log hash",
-                assumptions: vec!["provisional: two-node topology only (next hop = peer); scripted responder scenario pending"],
+                scens: vec![Scen { name: "neighbour-population", weight: 4, run: neigh_scn }, Scen { name: "dgram-pair-exact", weight: 1, run: dgram_exact }, Scen { name: "dgram-pair-sloppy", weight: 1, run: dgram_sloppy }],
+                rule: "neighbour-population: one real node on Ethernet (IPv4/ARP or IPv6/NDISC) with 3 UDP sockets sending to 2..13 on-link neighbours (cache has 8 slots) and off-link destinations behind two gateways (default + specific route, each with optional expiry), against scripted neighbours that answer solicitations timely, late (to 61 s), never, or first with a non-unicast hardware address / an off-link sender, announce themselves unsolicited, change hardware address; own-address changes; time advances per poll_at, random, and landing on +-1 us of the 1 s rate-limit and 60 s expiry instants; plus the tap oracle on the two-node Ethernet datagram runs; non-trivial = >= 3 unicast frames checked and >= 2 solicitations; distinct = event-log hash",
+                assumptions: vec![
+                    "learned(next hop, hardware address) is an over-approximation: every valid announcement delivered to the node within 60 s counts, whether or not the cache kept it (8 slots)",
+                    "solicitation rate is checked globally (any two ARP requests / multicast neighbour solicitations >= 1 s apart), which is what the statement says and what the shared cache timer implements",
+                ],
                 real: REAL,
                 stub: STUB,
                 quick_s: 20.0,
